@@ -86,15 +86,29 @@ Inductive shape (s : st) (t : task) : Prop :=
 Definition task_ok (s : st) (t : task) :=
   Forall (fun o => o = ODeploy 0) (todo t) /\ parent t = None /\ shape s t.
 
+Definition P_H1 (s : st) := forall c e, alookup 0 (dm s) = Some (Real c) -> alookup 0 (em s) = Some e ->
+                                        ev_isset s e = true -> In (DE c true) (log s).
+Definition P_A2 (s : st) := alookup 0 (dm s) <> None -> mem 0 (cm s) = true.
+Definition P_A3 (s : st) := forall x, alookup 0 (dm s) = Some x -> exists c, x = Real c.
+Definition P_A4 (s : st) := forall e, alookup 0 (em s) = Some e -> e < length (evs s).
+Definition P_T (o : option nat) (s : st) :=
+  forall j t, nth_error (tasks s) j = Some t -> (tw t <> WRun \/ o = Some j) -> task_ok s t.
+
 Record INV (o : option nat) (s : st) : Prop := {
-  i_H1 : forall c e, alookup 0 (dm s) = Some (Real c) -> alookup 0 (em s) = Some e -> ev_isset s e = true ->
-                     In (DE c true) (log s);
-  i_A2 : alookup 0 (dm s) <> None -> mem 0 (cm s) = true;
-  i_A3 : forall x, alookup 0 (dm s) = Some x -> exists c, x = Real c;
-  i_A4 : forall e, alookup 0 (em s) = Some e -> e < length (evs s);
-  i_T : forall j t, nth_error (tasks s) j = Some t -> (tw t <> WRun \/ o = Some j) -> task_ok s t;
-  i_L : ra_all (log s) = true
+  i_H1 : P_H1 s; i_A2 : P_A2 s; i_A3 : P_A3 s; i_A4 : P_A4 s; i_T : P_T o s; i_L : ra_all (log s) = true
 }.
+
+Definition heap (s : st) := (cm s, em s, dm s, evs s).
+
+Lemma shape_heap : forall s s' t, heap s' = heap s -> shape s t -> shape s' t.
+Proof.
+  intros s s' t H Sh. unfold heap in H. inversion H as [[Hc He Hd Hv]].
+  destruct Sh; [eapply Sh_idle|eapply Sh_ret|eapply Sh_FD|eapply Sh_Else|eapply Sh_Wait|eapply Sh_FI
+               |eapply Sh_After|eapply Sh_Dep|eapply Sh_Top]; eauto;
+  unfold G, Eset, Fresh, Eunset, ev_isset in *; rewrite ?Hc, ?He, ?Hd, ?Hv; auto.
+Qed.
+Lemma task_ok_heap : forall s s' t, heap s' = heap s -> task_ok s t -> task_ok s' t.
+Proof. intros s s' t H [A [B C]]. split; [|split]; auto. eapply shape_heap; eauto. Qed.
 
 (* other tasks only depend on deployments_map *)
 Lemma other_ok : forall s s' t, tw t <> WRun -> alookup 0 (dm s') = alookup 0 (dm s) -> task_ok s t -> task_ok s' t.
@@ -119,20 +133,104 @@ Proof. intros e t. unfold wake. destruct (tw t) eqn:E; try congruence. Qed.
 Lemma wake_run : forall e t, tw t = WRun -> wake e t = t.
 Proof. intros e t H. unfold wake. now rewrite H. Qed.
 
-(* the task table after the running task [tid] was replaced and (maybe) waiters were woken *)
-Lemma T_upd : forall s s' tid t (f : task -> task) ts',
-  (forall j t', nth_error (tasks s) j = Some t' -> (tw t' <> WRun \/ Some tid = Some j) -> task_ok s t') ->
-  nth_error (tasks s) tid = Some t ->
-  (forall t', tw t' <> WRun -> task_ok s t' -> task_ok s' t') ->
-  task_ok s' (f t) ->
-  (forall j, nth_error ts' j = if tid =? j then Some (f t) else nth_error (tasks s) j) ->
-  forall j t', nth_error ts' j = Some t' -> (tw t' <> WRun \/ Some tid = Some j) -> task_ok s' t'.
+(* master lemma: rebuild the invariant after the running task [tid] became [t1], the other tasks were mapped
+   through [g] (identity or waking) and the heap changed in a way that is harmless for tasks that do not run *)
+Lemma INV_mk : forall s s' tid t1 (g : task -> task),
+  INV (Some tid) s ->
+  P_H1 s' -> P_A2 s' -> P_A3 s' -> P_A4 s' -> ra_all (log s') = true ->
+  (forall x, tw x <> WRun -> task_ok s x -> task_ok s' x) ->
+  nth_error (tasks s') tid = Some t1 ->
+  (forall j, j <> tid -> nth_error (tasks s') j = option_map g (nth_error (tasks s) j)) ->
+  (forall x, task_ok s' x -> task_ok s' (g x)) -> (forall x, tw (g x) <> WRun -> tw x <> WRun) ->
+  task_ok s' t1 -> INV (Some tid) s'.
 Proof.
-  intros s s' tid t f ts' HT Ht Ho Hft Hn j t' Hj Hc. rewrite Hn in Hj.
-  destruct (tid =? j) eqn:E.
-  - inversion Hj; subst; auto.
-  - apply Nat.eqb_neq in E. destruct Hc as [Hc|Hc]; [|inversion Hc; congruence].
-    apply Ho; auto. apply (HT j); auto.
+  intros s s' tid t1 g I h1 a2 a3 a4 l Ho Ht Hn Hg Hgw Hok.
+  constructor; auto. intros j t' Hj Hc.
+  destruct (Nat.eq_dec j tid) as [->|Hne].
+  - rewrite Ht in Hj. inversion Hj; subst; auto.
+  - rewrite (Hn j Hne) in Hj. destruct (nth_error (tasks s) j) as [x|] eqn:E; [|discriminate].
+    simpl in Hj. inversion Hj; subst. destruct Hc as [Hc|Hc]; [|inversion Hc; congruence].
+    apply Hg. apply Ho. apply Hgw; auto. apply (i_T _ _ I j x E). left. apply Hgw; auto.
+Qed.
+
+Lemma id_ok : forall s x, task_ok s x -> task_ok s ((fun y : task => y) x).
+Proof. auto. Qed.
+
+(* ---------------------------------------------------------------- transfer lemmas *)
+Lemma INV_eq : forall o s s', heap s' = heap s -> tasks s' = tasks s -> log s' = log s -> INV o s -> INV o s'.
+Proof.
+  intros o s s' H Ht Hl I. pose proof H as H0. unfold heap in H. inversion H as [[Hc He Hd Hv]].
+  destruct I as [h1 a2 a3 a4 tt ll].
+  constructor; unfold P_H1, P_A2, P_A3, P_A4, P_T, ev_isset in *; rewrite ?Hc, ?He, ?Hd, ?Hv, ?Hl, ?Ht; auto.
+  intros j t Hj Hcnd. eapply task_ok_heap; eauto.
+Qed.
+
+Definition ev_fine (x : ev) (older : list ev) : bool :=
+  match x with
+  | Ret _ _ None (IReal c) => has (is_DE c true) older
+  | Ret _ _ None _ => false
+  | _ => true
+  end.
+Lemma INV_log : forall o s s' x, heap s' = heap s -> tasks s' = tasks s -> log s' = x :: log s ->
+  ev_fine x (log s) = true -> INV o s -> INV o s'.
+Proof.
+  intros o s s' x H Ht Hl Hx I. pose proof H as H0. unfold heap in H. inversion H as [[Hc He Hd Hv]].
+  destruct I as [h1 a2 a3 a4 tt ll].
+  constructor; unfold P_H1, P_A2, P_A3, P_A4, P_T, ev_isset in *; rewrite ?Hc, ?He, ?Hd, ?Hv, ?Hl, ?Ht; auto.
+  - intros c e A B C. right. eapply h1; eauto.
+  - intros j t Hj Hcnd. eapply task_ok_heap; eauto.
+  - simpl. unfold ev_fine in Hx. rewrite ll, andb_true_r. exact Hx.
+Qed.
+
+Lemma opt_id : forall A (x : option A), option_map (fun y => y) x = x.
+Proof. destruct x; reflexivity. Qed.
+
+Lemma INV_upd : forall s tid t f,
+  INV (Some tid) s -> nth_error (tasks s) tid = Some t -> task_ok s (f t) -> INV (Some tid) (upd_task s tid f).
+Proof.
+  intros s tid t f I Ht Hok.
+  assert (Hh : heap (upd_task s tid f) = heap s) by reflexivity.
+  apply INV_mk with (s := s) (t1 := f t) (g := fun y => y).
+  - exact I.
+  - exact (i_H1 _ _ I).
+  - exact (i_A2 _ _ I).
+  - exact (i_A3 _ _ I).
+  - exact (i_A4 _ _ I).
+  - exact (i_L _ _ I).
+  - intros x _ Hx. eapply task_ok_heap; eauto.
+  - simpl. rewrite nth_error_nth_upd, Nat.eqb_refl, Ht. reflexivity.
+  - intros j Hne. simpl. rewrite nth_error_nth_upd. destruct (tid =? j) eqn:E.
+    apply Nat.eqb_eq in E. congruence. now rewrite opt_id.
+  - auto.
+  - auto.
+  - eapply task_ok_heap; eauto.
+Qed.
+Lemma tid_upd : forall s tid t f, nth_error (tasks s) tid = Some t ->
+  nth_error (tasks (upd_task s tid f)) tid = Some (f t).
+Proof. intros. simpl. rewrite nth_error_nth_upd, Nat.eqb_refl, H. reflexivity. Qed.
+
+Lemma finish_eq : forall s tid t r, nth_error (tasks s) tid = Some t -> parent t = None ->
+  finish s tid r = upd_task s tid (fun t => mkT [] [] (opi t) None (parent t) WDone (gerr t) (ucon t)).
+Proof.
+  intros s tid t r Ht Hp. unfold finish, notify.
+  rewrite (tid_upd s tid t _ Ht). simpl. rewrite Hp. reflexivity.
+Qed.
+
+Lemma INV_finish : forall s tid t r,
+  INV (Some tid) s -> nth_error (tasks s) tid = Some t -> task_ok s t -> INV (Some tid) (finish s tid r).
+Proof.
+  intros s tid t r I Ht [A [B C]]. rewrite (finish_eq s tid t r Ht B).
+  eapply INV_upd; eauto. split; [|split]; simpl; auto. apply Sh_idle; reflexivity.
+Qed.
+
+Lemma INV_raise : forall s tid t e,
+  INV (Some tid) s -> nth_error (tasks s) tid = Some t -> task_ok s t -> INV (Some tid) (raise s tid e).
+Proof.
+  intros s tid t e I Ht Hok. unfold raise. rewrite Ht. destruct (cur t) as [o|].
+  - eapply INV_finish with (t := t); eauto.
+    + eapply INV_log with (s := s); eauto; reflexivity.
+    + eapply task_ok_heap; eauto. reflexivity.
+  - eapply INV_finish; eauto.
 Qed.
 
 End OneEager.
